@@ -1,1 +1,52 @@
-From PC Require Import Model.VConstraint.
+(* C04 — constraint membership agrees with PEP 440 specifier semantics.
+   Reference semantics: Spec/Specifier.v (validated against packaging on every run).
+   Proofs: Proofs/SpecifierAgree.v, Proofs/RangeSpec.v. *)
+From Coq Require Import List Bool NArith String.
+From PC Require Import Base.Cmp Base.Result Model.Pep440 Spec.Pep440Spec Spec.Specifier Model.VConstraint
+     Proofs.VersionFacts Proofs.RangeSpec Proofs.SpecifierAgree.
+Import ListNotations.
+Open Scope string_scope.
+
+(* Inclusive comparisons and equality: every candidate (pre/post/dev/local forms included), any
+   literal without a local label (== also with one).  The ranges are the ones parse_single builds
+   (see C04_desugar). *)
+Theorem C04_ge : forall l c, is_local l = false -> r_allows (RR (Some l) None true false) c = sp_ge l c.
+Proof. exact ge_agrees. Qed.
+Print Assumptions C04_ge.
+Theorem C04_le : forall l c, is_local l = false -> r_allows (RR None (Some l) false true) c = sp_le l c.
+Proof. exact le_agrees. Qed.
+Print Assumptions C04_le.
+Theorem C04_eq : forall l c, r_allows (RV l) c = sp_eq l c.
+Proof. exact eq_agrees. Qed.
+Print Assumptions C04_eq.
+
+(* Exclusive comparisons against a final release: >V rejects post-releases and local builds of V,
+   <V rejects pre-releases (and dev releases) of V — for every well-formed candidate. *)
+Theorem C04_gt_final : forall l c, wf l = true -> wf c = true -> is_final l = true ->
+  r_allows (RR (Some l) None false false) c = sp_gt l c.
+Proof. exact gt_final_agrees. Qed.
+Print Assumptions C04_gt_final.
+Theorem C04_lt_final : forall l c, wf l = true -> wf c = true -> is_final l = true ->
+  r_allows (RR None (Some l) false false) c = sp_lt l c.
+Proof. exact lt_final_agrees. Qed.
+Print Assumptions C04_lt_final.
+
+(* Any literal, candidates of another release (or equal to the literal): plain interval membership. *)
+Theorem C04_regular_candidates : forall r v, wf_rng r = true -> wf v = true -> regular_r v r = true ->
+  r_allows r v = mem r v.
+Proof. exact allows_regular. Qed.
+Print Assumptions C04_regular_candidates.
+
+(* the parser builds exactly these ranges (instances; the general link is the correspondence run) *)
+Example C04_desugar :
+  (exists l, parse "1.2" = Some l /\
+     parse_single false ">=1.2" = Ok (VOne (RR (Some l) None true false)) /\
+     parse_single false "<= 1.2" = Ok (VOne (RR None (Some l) false true)) /\
+     parse_single false ">1.2" = Ok (VOne (RR (Some l) None false false)) /\
+     parse_single false "<1.2" = Ok (VOne (RR None (Some l) false false)) /\
+     parse_single false "==1.2" = Ok (VOne (RV l)) /\ parse_single false "1.2" = Ok (VOne (RV l)) /\
+     is_final l = true /\ wf l = true).
+Proof. eexists. repeat split; vm_compute; reflexivity. Qed.
+
+(* Not yet theorems (decided by the correspondence run and the reference oracle only): '!=', '~=',
+   '==X.*', '!=X.*', comma-joined sets, '^', '~', '||'. *)
